@@ -83,17 +83,18 @@ CLAIMED = {
    technique="TLA+ model of the check chains (TLC) + execution of every enumerated tuple on the real code",
    design="4/C12"),
  "C06": dict(
-   text="Every failure position (stage kind x chunk: source, plugins, multi-output plugin, loaders, savers of targets and side "
-        "outputs, saver close, consumer failure / abandonment) of four topologies is executed on both real processors; the "
-        "threaded pipeline (real Context + ThreadedMailboxProcessor + Mailbox) runs under the deterministic scheduler for many "
-        "seeded schedules (uniform and priority-based), a hang is 'no enabled thread while some are unfinished'. TLC judges every "
-        "observation against the P-level spec/PipelineObs.tla (original exception reaches the caller, no hang, no live threads, "
-        "no silent truncation, failure-free runs complete). The mailbox-level design (all schedules, lost wake-ups) is covered by "
-        "spec/Mailbox.tla and its lock-step binding (see C05).",
-   note="Schedules of whole pipelines are sampled, not enumerated; timeouts never fire; capacity 2/4 exceeds every plugin lag. "
-        "A pipeline-level TLA+ model of the exception relay (Pipeline.tla) is work in progress; until then the pipeline part of "
-        "this check is scheduler-driven exploration of the real code with a TLC-evaluated P-level.",
-   technique="deterministic-scheduler exploration of the real pipeline + TLC-evaluated P-level (PipelineObs.tla); Mailbox.tla model checking for the mailbox layer",
+   text="spec/Pipeline.tla models the exception relay of the threaded processor for chains of stages with savers (who kills which "
+        "mailbox with which reason, MailboxKilled travelling downstream, forced kills stopping senders, the main thread killing all "
+        "mailboxes, joining, re-raising, saver got_exception) over atomic mailbox operations; TLC checks NoDeadlock, EveryoneStops, "
+        "CallerOutcome (the original exception, never 'returned'), EagerCap and termination for every failure position, lazy and "
+        "eager, all schedules (and that dropping the main thread's kill-all breaks them). The condition-variable layer underneath "
+        "is Mailbox.tla, bisimulated with the real Mailbox (C05). Code level: every (topology, stage, chunk) failure, saver close "
+        "failure, consumer failure / abandonment and the failure-free case run on both real processors - the threaded one under "
+        "the deterministic scheduler for seeded random and priority-based schedules - and TLC judges every observation against "
+        "PipelineObs.tla (original exception reaches the caller, no hang, no live threads, no silent truncation).",
+   note="Pipeline.tla is model-checked but not yet bound to the code by trace validation: the binding of the pipeline level is the "
+        "scheduler-driven exploration of the real code (sampled schedules, timeouts never fire, capacity 2/4 above every plugin lag).",
+   technique="TLA+ model checking of the exception relay (Pipeline.tla) + deterministic-scheduler exploration of the real pipeline judged by TLC (PipelineObs.tla)",
    design="4/C06"),
  "C13": dict(
    text="Mailbox level: spec/Mailbox.tla is model-checked over all schedules of every configuration for CapInv (eager: never more "
